@@ -23,7 +23,8 @@ use poulpy_ckks::{
         CKKSPlaintextCstZnx, CKKSPlaintextVecRnx, CKKSPlaintextVecZnx,
     },
     leveled::api::{
-        CKKSAddOps, CKKSConjugateOps, CKKSDecrypt, CKKSEncrypt, CKKSMulAddOps, CKKSMulOps, CKKSMulSubOps, CKKSNegOps,
+        CKKSAddManyOps, CKKSAddOps, CKKSConjugateOps, CKKSDecrypt, CKKSDotProductOps, CKKSEncrypt, CKKSMulAddOps, CKKSMulManyOps,
+        CKKSMulOps, CKKSMulSubOps, CKKSNegOps,
         CKKSPow2Ops, CKKSRescaleOps, CKKSRotateOps, CKKSSubOps,
     },
 };
@@ -153,17 +154,28 @@ fn cmul(a: (f64, f64), b: (f64, f64)) -> (f64, f64) {
 }
 
 macro_rules! backend_impl {
-    ($modname:ident, $be:ty) => {
+    ($modname:ident, $be:ty, $f:ty, $maxprec:expr) => {
         mod $modname {
             use super::*;
             type BE = $be;
+            type F = $f;
+            const MAXPREC: usize = $maxprec;
+            fn to_f(x: f64) -> F {
+                <F as num_traits::NumCast>::from(x).unwrap()
+            }
+            fn of_f(x: F) -> f64 {
+                num_traits::ToPrimitive::to_f64(&x).unwrap_or(f64::NAN)
+            }
+            fn to_fv(v: &[f64]) -> Vec<F> {
+                v.iter().map(|&x| to_f(x)).collect()
+            }
             type Ct = CKKSCiphertext<Vec<u8>>;
 
             pub struct Ctx {
                 pub n: usize,
                 pub base2k: usize,
                 pub module: Module<BE>,
-                pub encoder: Encoder<f64>,
+                pub encoder: Encoder<F>,
                 pub sk: GLWESecretPrepared<DeviceBuf<BE>, BE>,
                 pub tsk: GLWETensorKeyPrepared<DeviceBuf<BE>, BE>,
                 pub rot: HashMap<i64, GLWEAutomorphismKeyPrepared<DeviceBuf<BE>, BE>>,
@@ -221,7 +233,7 @@ macro_rules! backend_impl {
                     rot.insert(k, mk(g, &mut xa, &mut xe, &mut scratch));
                 }
                 let conj = mk(-1, &mut xa, &mut xe, &mut scratch);
-                let encoder = Encoder::<f64>::new(n / 2).unwrap();
+                let encoder = Encoder::<F>::new(n / 2).unwrap();
                 Ctx { n, base2k, module, encoder, sk, tsk: tskp, rot, conj, scratch, xa, xe }
             }
 
@@ -233,22 +245,22 @@ macro_rules! backend_impl {
             }
 
             fn pt_znx(ctx: &Ctx, meta: CKKSMeta, base2k: usize, vals: &(Vec<f64>, Vec<f64>)) -> anyhow::Result<CKKSPlaintextVecZnx<Vec<u8>>> {
-                let mut rnx = CKKSPlaintextVecRnx::<f64>::alloc(ctx.n)?;
-                ctx.encoder.encode_reim(&mut rnx, &vals.0, &vals.1)?;
+                let mut rnx = CKKSPlaintextVecRnx::<F>::alloc(ctx.n)?;
+                ctx.encoder.encode_reim(&mut rnx, &to_fv(&vals.0), &to_fv(&vals.1))?;
                 let mut z = CKKSPlaintextVecZnx::alloc(Degree(ctx.n as u32), Base2K(base2k as u32), meta);
                 rnx.to_znx(&mut z)?;
                 Ok(z)
             }
-            fn pt_rnx(ctx: &Ctx, vals: &(Vec<f64>, Vec<f64>)) -> CKKSPlaintextVecRnx<f64> {
-                let mut rnx = CKKSPlaintextVecRnx::<f64>::alloc(ctx.n).unwrap();
-                ctx.encoder.encode_reim(&mut rnx, &vals.0, &vals.1).unwrap();
+            fn pt_rnx(ctx: &Ctx, vals: &(Vec<f64>, Vec<f64>)) -> CKKSPlaintextVecRnx<F> {
+                let mut rnx = CKKSPlaintextVecRnx::<F>::alloc(ctx.n).unwrap();
+                ctx.encoder.encode_reim(&mut rnx, &to_fv(&vals.0), &to_fv(&vals.1)).unwrap();
                 rnx
             }
 
             /// decrypt + decode `ct`; None if the plaintext cannot be extracted / decoded
             fn dec_slots(ctx: &mut Ctx, ct: &Ct) -> Option<(Vec<f64>, Vec<f64>)> {
                 let ld = ct.log_delta();
-                if ld == 0 || ld > 53 {
+                if ld == 0 || ld > MAXPREC {
                     return None;
                 }
                 let lb = ct.log_budget().min(30).min(120 - ld.min(120));
@@ -266,13 +278,13 @@ macro_rules! backend_impl {
                 let n = ctx.n;
                 let enc = &ctx.encoder;
                 std::panic::catch_unwind(std::panic::AssertUnwindSafe(|| {
-                    let mut rnx = CKKSPlaintextVecRnx::<f64>::alloc(n).ok()?;
+                    let mut rnx = CKKSPlaintextVecRnx::<F>::alloc(n).ok()?;
                     rnx.decode_from_znx(&z).ok()?;
                     let m = n / 2;
-                    let mut re = vec![0.0; m];
-                    let mut im = vec![0.0; m];
+                    let mut re = vec![to_f(0.0); m];
+                    let mut im = vec![to_f(0.0); m];
                     enc.decode_reim(&rnx, &mut re, &mut im).ok()?;
-                    Some((re, im))
+                    Some((re.iter().map(|&x| of_f(x)).collect(), im.iter().map(|&x| of_f(x)).collect()))
                 }))
                 .ok()
                 .flatten()
@@ -419,7 +431,7 @@ macro_rules! backend_impl {
                     ("add_cst_rnx" | "sub_cst_rnx", 7) => {
                         let (d, a) = (slot(f[1])?, slot(f[2])?);
                         let (cr, ci) = cst_vals(step, f[5] == "1", f[6] == "1");
-                        let c = CKKSPlaintextCstRnx::<f64>::new(cr, ci);
+                        let c = CKKSPlaintextCstRnx::<F>::new(cr.map(to_f), ci.map(to_f));
                         let (pd, ca) = dst_src(pool, d, a)?;
                         let pm = meta(f[3], f[4]);
                         let r = if sub {
@@ -436,7 +448,7 @@ macro_rules! backend_impl {
                     ("add_cst_rnx_assign" | "sub_cst_rnx_assign", 6) => {
                         let d = slot(f[1])?;
                         let (cr, ci) = cst_vals(step, f[4] == "1", f[5] == "1");
-                        let c = CKKSPlaintextCstRnx::<f64>::new(cr, ci);
+                        let c = CKKSPlaintextCstRnx::<F>::new(cr.map(to_f), ci.map(to_f));
                         let pm = meta(f[2], f[3]);
                         let r = if sub {
                             ctx.module.ckks_sub_pt_const_rnx_assign(&mut pool[d], &c, pm, ctx.scratch.borrow())
@@ -452,7 +464,7 @@ macro_rules! backend_impl {
                     ("add_cst_znx" | "sub_cst_znx", 7) => {
                         let (d, a) = (slot(f[1])?, slot(f[2])?);
                         let (cr, ci) = cst_vals(step, f[5] == "1", f[6] == "1");
-                        let c = CKKSPlaintextCstRnx::<f64>::new(cr, ci);
+                        let c = CKKSPlaintextCstRnx::<F>::new(cr.map(to_f), ci.map(to_f));
                         let z: CKKSPlaintextCstZnx =
                             c.to_znx_at_k(Base2K(ctx.base2k as u32), nat(f[3]), nat(f[4])).map_err(|e| err_string(&e))?;
                         let (pd, ca) = dst_src(pool, d, a)?;
@@ -468,7 +480,7 @@ macro_rules! backend_impl {
                     ("add_cst_znx_assign" | "sub_cst_znx_assign", 6) => {
                         let d = slot(f[1])?;
                         let (cr, ci) = cst_vals(step, f[4] == "1", f[5] == "1");
-                        let c = CKKSPlaintextCstRnx::<f64>::new(cr, ci);
+                        let c = CKKSPlaintextCstRnx::<F>::new(cr.map(to_f), ci.map(to_f));
                         let z: CKKSPlaintextCstZnx =
                             c.to_znx_at_k(Base2K(ctx.base2k as u32), nat(f[2]), nat(f[3])).map_err(|e| err_string(&e))?;
                         let r = if sub {
@@ -597,7 +609,7 @@ macro_rules! backend_impl {
                     ("mul_cst_rnx", 7) => {
                         let (d, a) = (slot(f[1])?, slot(f[2])?);
                         let (cr, ci) = cst_vals(step, f[5] == "1", f[6] == "1");
-                        let c = CKKSPlaintextCstRnx::<f64>::new(cr, ci);
+                        let c = CKKSPlaintextCstRnx::<F>::new(cr.map(to_f), ci.map(to_f));
                         let (pd, ca) = dst_src(pool, d, a)?;
                         let cc = (cr.unwrap_or(0.0), ci.unwrap_or(0.0));
                         let nv = map1(&vals[a], |x| cmul(x, cc));
@@ -612,7 +624,7 @@ macro_rules! backend_impl {
                     ("mul_cst_rnx_assign", 6) => {
                         let d = slot(f[1])?;
                         let (cr, ci) = cst_vals(step, f[4] == "1", f[5] == "1");
-                        let c = CKKSPlaintextCstRnx::<f64>::new(cr, ci);
+                        let c = CKKSPlaintextCstRnx::<F>::new(cr.map(to_f), ci.map(to_f));
                         let cc = (cr.unwrap_or(0.0), ci.unwrap_or(0.0));
                         let nv = map1(&vals[d], |x| cmul(x, cc));
                         vals[d] = None;
@@ -674,7 +686,7 @@ macro_rules! backend_impl {
                     ("mul_add_cst_rnx" | "mul_sub_cst_rnx", 7) => {
                         let (d, a) = (slot(f[1])?, slot(f[2])?);
                         let (cr, ci) = cst_vals(step, f[5] == "1", f[6] == "1");
-                        let c = CKKSPlaintextCstRnx::<f64>::new(cr, ci);
+                        let c = CKKSPlaintextCstRnx::<F>::new(cr.map(to_f), ci.map(to_f));
                         let (pd, ca) = dst_src(pool, d, a)?;
                         let cc = (cr.unwrap_or(0.0), ci.unwrap_or(0.0));
                         let prod = map1(&vals[a], |x| cmul(x, cc));
@@ -850,6 +862,106 @@ macro_rules! backend_impl {
                         e2s(r)?;
                         Ok(None)
                     }
+                    ("add_many" | "mul_many", _) if f.len() >= 2 => {
+                        let d = slot(f[1])?;
+                        let idx: Vec<usize> = f[2..].iter().map(|x| nat(x)).collect();
+                        let (pd, cs) = dst_srcs(pool, d, &idx)?;
+                        let mut nv: Slots = idx.first().and_then(|&a| vals[a].clone());
+                        for &a in idx.iter().skip(1) {
+                            nv = if name == "add_many" { zip2(&nv, &vals[a], |x, y| (x.0 + y.0, x.1 + y.1)) } else { zip2(&nv, &vals[a], cmul) };
+                        }
+                        let r = if name == "add_many" {
+                            ctx.module.ckks_add_many(pd, &cs, ctx.scratch.borrow())
+                        } else {
+                            ctx.module.ckks_mul_many(pd, &cs, &ctx.tsk, ctx.scratch.borrow())
+                        };
+                        vals[d] = if r.is_ok() { nv } else { None };
+                        e2s(r)?;
+                        Ok(Some(d))
+                    }
+                    ("dot_ct" | "dot_pt_znx" | "dot_pt_rnx" | "dot_cst_rnx", _) if f.len() >= 3 => {
+                        let d = slot(f[1])?;
+                        let n = nat(f[2]);
+                        if f.len() < 3 + n {
+                            return Err("bad-op".to_string());
+                        }
+                        let ia: Vec<usize> = f[3..3 + n].iter().map(|x| nat(x)).collect();
+                        let rest = &f[3 + n..];
+                        let sum = |terms: Vec<Slots>| -> Slots {
+                            let mut acc: Slots = terms.first().cloned().flatten();
+                            for t in terms.iter().skip(1) {
+                                acc = zip2(&acc, t, |x, y| (x.0 + y.0, x.1 + y.1));
+                            }
+                            acc
+                        };
+                        match name {
+                            "dot_ct" => {
+                                if rest.len() != n {
+                                    return Err("bad-op".to_string());
+                                }
+                                let ib: Vec<usize> = rest.iter().map(|x| nat(x)).collect();
+                                let mut all = ia.clone();
+                                all.extend(ib.iter());
+                                let nv = sum((0..n).map(|i| zip2(&vals[ia[i]], &vals[ib[i]], cmul)).collect());
+                                let (pd, cs) = dst_srcs(pool, d, &all)?;
+                                let r = ctx.module.ckks_dot_product_ct(pd, &cs[..n], &cs[n..], &ctx.tsk, ctx.scratch.borrow());
+                                vals[d] = if r.is_ok() { nv } else { None };
+                                e2s(r)?;
+                            }
+                            "dot_pt_znx" => {
+                                if rest.len() != 3 {
+                                    return Err("bad-op".to_string());
+                                }
+                                if ia.iter().any(|&a| a == d) {
+                                    return Err("bad-slot".to_string());
+                                }
+                                let pv: Vec<(Vec<f64>, Vec<f64>)> = (0..n).map(|i| gen_slots(5000 + step * 16 + i as u64, m, 0.2)).collect();
+                                let mut zs = Vec::new();
+                                for v in pv.iter() {
+                                    zs.push(pt_znx(ctx, meta(rest[0], rest[1]), nat(rest[2]), v).map_err(|e| err_string(&e))?);
+                                }
+                                let zr: Vec<&CKKSPlaintextVecZnx<Vec<u8>>> = zs.iter().collect();
+                                let nv = sum((0..n).map(|i| zip2(&vals[ia[i]], &Some(pv[i].clone()), cmul)).collect());
+                                let (pd, cs) = dst_srcs(pool, d, &ia)?;
+                                let r = ctx.module.ckks_dot_product_pt_vec_znx(pd, &cs, &zr, ctx.scratch.borrow());
+                                vals[d] = if r.is_ok() { nv } else { None };
+                                e2s(r)?;
+                            }
+                            "dot_pt_rnx" => {
+                                if rest.len() != 2 {
+                                    return Err("bad-op".to_string());
+                                }
+                                let pv: Vec<(Vec<f64>, Vec<f64>)> = (0..n).map(|i| gen_slots(5000 + step * 16 + i as u64, m, 0.2)).collect();
+                                let rs: Vec<CKKSPlaintextVecRnx<F>> = pv.iter().map(|v| pt_rnx(ctx, v)).collect();
+                                let rr: Vec<&CKKSPlaintextVecRnx<F>> = rs.iter().collect();
+                                let nv = sum((0..n).map(|i| zip2(&vals[ia[i]], &Some(pv[i].clone()), cmul)).collect());
+                                let (pd, cs) = dst_srcs(pool, d, &ia)?;
+                                let r = ctx.module.ckks_dot_product_pt_vec_rnx(pd, &cs, &rr, meta(rest[0], rest[1]), ctx.scratch.borrow());
+                                vals[d] = if r.is_ok() { nv } else { None };
+                                e2s(r)?;
+                            }
+                            _ => {
+                                if rest.len() != 4 {
+                                    return Err("bad-op".to_string());
+                                }
+                                let cv: Vec<(Option<f64>, Option<f64>)> =
+                                    (0..n).map(|i| cst_vals(step * 16 + i as u64, rest[2] == "1", rest[3] == "1")).collect();
+                                let cs_: Vec<CKKSPlaintextCstRnx<F>> = cv.iter().map(|c| CKKSPlaintextCstRnx::<F>::new(c.0.map(to_f), c.1.map(to_f))).collect();
+                                let cr: Vec<&CKKSPlaintextCstRnx<F>> = cs_.iter().collect();
+                                let nv = sum((0..n)
+                                    .map(|i| {
+                                        let cc = (cv[i].0.unwrap_or(0.0), cv[i].1.unwrap_or(0.0));
+                                        map1(&vals[ia[i]], |x| cmul(x, cc))
+                                    })
+                                    .collect());
+                                let (pd, cs) = dst_srcs(pool, d, &ia)?;
+                                let r = ctx.module.ckks_dot_product_pt_const_rnx(pd, &cs, &cr, meta(rest[0], rest[1]), ctx.scratch.borrow());
+                                vals[d] = if r.is_ok() { nv } else { None };
+                                e2s(r)?;
+                            }
+                        }
+                        Ok(Some(d))
+                    }
                     _ => Err("bad-op".to_string()),
                 }
             }
@@ -868,6 +980,13 @@ macro_rules! backend_impl {
                 }
                 let p = pool.as_mut_ptr();
                 unsafe { Ok((&mut *p.add(d), &*p.add(a))) }
+            }
+            fn dst_srcs<'a>(pool: &'a mut [Ct], d: usize, srcs: &[usize]) -> Result<(&'a mut Ct, Vec<&'a Ct>), String> {
+                if d >= pool.len() || srcs.iter().any(|&a| a == d || a >= pool.len()) {
+                    return Err("bad-slot".to_string());
+                }
+                let p = pool.as_mut_ptr();
+                unsafe { Ok((&mut *p.add(d), srcs.iter().map(|&a| &*p.add(a)).collect())) }
             }
             fn dst_src2<'a>(pool: &'a mut [Ct], d: usize, a: usize, b: usize) -> Result<(&'a mut Ct, &'a Ct, &'a Ct), String> {
                 if d == a || d == b {
@@ -904,6 +1023,12 @@ macro_rules! backend_impl {
                     "mul_pow2_assign" => vp[d] - g(2),
                     "div_pow2" => at(vp, g(2)),
                     "rescale" => at(vp, g(3)),
+                    "add_many" | "mul_many" => (2..f.len()).map(|i| at(vp, g(i))).min().unwrap_or(0),
+                    "dot_ct" => (3..f.len()).map(|i| at(vp, g(i))).min().unwrap_or(0),
+                    "dot_pt_znx" | "dot_pt_rnx" | "dot_cst_rnx" => {
+                        let n = g(2) as usize;
+                        (3..3 + n).map(|i| at(vp, g(i))).min().unwrap_or(0).min(g(3 + n))
+                    }
                     _ => vp[d],
                 };
                 vp[d] = v;
@@ -970,7 +1095,7 @@ macro_rules! backend_impl {
                                             dg = format!(
                                                 "{:.1}:{}:{:.1}:{}",
                                                 l,
-                                                vprec[d].min(pool[d].log_delta() as i64),
+                                                vprec[d].min(pool[d].log_delta() as i64).min(46), // the complex-number mirror is f64
                                                 if mx == 0.0 { -1074.0 } else { mx.log2() },
                                                 lb
                                             );
@@ -1007,24 +1132,28 @@ macro_rules! backend_impl {
                 let seed = kvu(t, "seed", 1) as u64;
                 let m = n / 2;
                 let r = std::panic::catch_unwind(|| -> anyhow::Result<String> {
-                    let enc = Encoder::<f64>::new(m)?;
+                    let enc = Encoder::<F>::new(m)?;
                     let v = gen_slots(seed, m, mag);
-                    let mut rnx = CKKSPlaintextVecRnx::<f64>::alloc(n)?;
-                    enc.encode_reim(&mut rnx, &v.0, &v.1)?;
-                    let mut re0 = vec![0.0; m];
-                    let mut im0 = vec![0.0; m];
-                    enc.decode_reim(&rnx, &mut re0, &mut im0)?;
+                    let mut rnx = CKKSPlaintextVecRnx::<F>::alloc(n)?;
+                    enc.encode_reim(&mut rnx, &to_fv(&v.0), &to_fv(&v.1))?;
+                    let mut re0f = vec![to_f(0.0); m];
+                    let mut im0f = vec![to_f(0.0); m];
+                    enc.decode_reim(&rnx, &mut re0f, &mut im0f)?;
+                    let re0: Vec<f64> = re0f.iter().map(|&x| of_f(x)).collect();
+                    let im0: Vec<f64> = im0f.iter().map(|&x| of_f(x)).collect();
                     let mut e0: f64 = 0.0;
                     for j in 0..m {
                         e0 = e0.max((re0[j] - v.0[j]).abs()).max((im0[j] - v.1[j]).abs());
                     }
                     let mut z = CKKSPlaintextVecZnx::alloc(Degree(n as u32), Base2K(base2k as u32), meta);
                     rnx.to_znx(&mut z)?;
-                    let mut back = CKKSPlaintextVecRnx::<f64>::alloc(n)?;
+                    let mut back = CKKSPlaintextVecRnx::<F>::alloc(n)?;
                     back.decode_from_znx(&z)?;
-                    let mut re = vec![0.0; m];
-                    let mut im = vec![0.0; m];
-                    enc.decode_reim(&back, &mut re, &mut im)?;
+                    let mut ref_ = vec![to_f(0.0); m];
+                    let mut imf = vec![to_f(0.0); m];
+                    enc.decode_reim(&back, &mut ref_, &mut imf)?;
+                    let re: Vec<f64> = ref_.iter().map(|&x| of_f(x)).collect();
+                    let im: Vec<f64> = imf.iter().map(|&x| of_f(x)).collect();
                     let mut e: f64 = 0.0;
                     for j in 0..m {
                         e = e.max((re[j] - v.0[j]).abs()).max((im[j] - v.1[j]).abs());
@@ -1042,10 +1171,11 @@ macro_rules! backend_impl {
     };
 }
 
-backend_impl!(ntt120ref, poulpy_cpu_ref::NTT120Ref);
-backend_impl!(fft64ref, poulpy_cpu_ref::FFT64Ref);
-backend_impl!(ntt120avx, poulpy_cpu_avx::NTT120Avx);
-backend_impl!(fft64avx, poulpy_cpu_avx::FFT64Avx);
+backend_impl!(ntt120ref, poulpy_cpu_ref::NTT120Ref, f64, 53);
+backend_impl!(ntt120ref128, poulpy_cpu_ref::NTT120Ref, f128::f128, 113);
+backend_impl!(fft64ref, poulpy_cpu_ref::FFT64Ref, f64, 53);
+backend_impl!(ntt120avx, poulpy_cpu_avx::NTT120Avx, f64, 53);
+backend_impl!(fft64avx, poulpy_cpu_avx::FFT64Avx, f64, 53);
 
 pub fn run(_args: &[String]) {
     std::panic::set_hook(Box::new(|info| {
@@ -1064,6 +1194,7 @@ pub fn run(_args: &[String]) {
     let mut c2: HashMap<String, fft64ref::Ctx> = HashMap::new();
     let mut c3: HashMap<String, ntt120avx::Ctx> = HashMap::new();
     let mut c4: HashMap<String, fft64avx::Ctx> = HashMap::new();
+    let mut c5: HashMap<String, ntt120ref128::Ctx> = HashMap::new();
     let stdin = std::io::stdin();
     let stdout = std::io::stdout();
     let mut out = stdout.lock();
@@ -1079,7 +1210,7 @@ pub fn run(_args: &[String]) {
         }
         let id = t[0];
         let ans = if t[1] == "roundtrip" {
-            ntt120ref::roundtrip(&t[2..])
+            if kv(&t[2..], "float") == Some("f128") { ntt120ref128::roundtrip(&t[2..]) } else { ntt120ref::roundtrip(&t[2..]) }
         } else {
             let be = kv(&t[1..], "be").unwrap_or("ntt120ref");
             let r = std::panic::catch_unwind(std::panic::AssertUnwindSafe(|| match be {
@@ -1087,6 +1218,7 @@ pub fn run(_args: &[String]) {
                 "fft64ref" => fft64ref::run_line(&mut c2, &t[1..]),
                 "ntt120avx" => ntt120avx::run_line(&mut c3, &t[1..]),
                 "fft64avx" => fft64avx::run_line(&mut c4, &t[1..]),
+                "ntt120ref128" => ntt120ref128::run_line(&mut c5, &t[1..]),
                 _ => "bad-backend".to_string(),
             }));
             match r {
